@@ -37,7 +37,7 @@ POLICIES = ["generate", "allow", "deny"]
 RENAMES = [None, "other", "other-crate"]
 PARAMS = ["0", "1i", "1r", "2", "1x", "1c", "1s"]
 SITES = ["member", "def_same", "def_diff", "def_suffix", "vec", "inline", "allof1", "allof2"]
-MALFORMED = ["no_path", "no_version", "no_crate", "bad_req", "empty_req", "path_no_sep", "path_other_crate", "path_hyphen", "ext_string", "ext_number",
+MALFORMED = ["no_path", "no_version", "no_crate", "bad_req", "empty_req", "path_no_sep", "path_other_crate", "path_prefix_crate", "path_prefix_crate_us", "path_bare_crate", "path_hyphen", "ext_string", "ext_number",
              "ext_array", "params_string"]
 MARKER = "marker_zz9"
 
@@ -73,6 +73,12 @@ def ext_value(req, params, mal=None):
         x["path"] = "Thing"
     elif mal == "path_other_crate":
         x["path"] = "elsewhere::Thing"
+    elif mal == "path_prefix_crate":
+        x["path"] = IDENT + "ra::sub::Thing"      # the first segment merely BEGINS with the crate identifier
+    elif mal == "path_prefix_crate_us":
+        x["path"] = IDENT + "_types::Thing"
+    elif mal == "path_bare_crate":
+        x["path"] = IDENT                         # nothing but the crate identifier
     elif mal == "path_hyphen":
         x["path"] = CRATE + "::sub::Thing"
     elif mal == "ext_string":
